@@ -23,7 +23,12 @@ THEOREM_FILES = ["Props/C09.v"]
 COQ_IMPORTS = ("From Coq Require Import List ZArith QArith Qcanon Bool.\n"
                "From PV Require Import Base.Index Np.Array Model.Sparse Model.Repr Model.Harness Model.C09Als Model.C09Exec.\n")
 RULE = ("integer data tensors 3x3x2 .. 4x3x2, 2-way and 4-way (<= 24 entries) held as dense / sparse (3 stored orders) / Tucker / "
-        "sum tensors; ranks 1-2; given integer starts (with and without weights) and seeded random starts; every mode order, "
+        "sum tensors; ranks 1-2; given integer starts (with and without weights), seeded random starts and init='nvecs' (dense / sparse / "
+        "Tucker data); PLANTED rank-3 (3x3x3, 4x3x3, 3x4x3) and rank-4 (4x4x4) problems = exact integer Kruskal structure + small integer "
+        "noise, started at the planted factors, with the planted component strengths chosen so that the final descending-weight sort of "
+        "ktensor.arrange needs EACH of the 6 permutations of 3 components (both 3-cycles included; the needed permutation is predicted "
+        "with an exact Fraction sweep in the generator) and non-involutive permutations of 4 components, held as dense / sparse / "
+        "Tucker (superdiagonal core) / sum (Kruskal part + sparse noise part) data, maxiters 1-2; printitn 0 (mostly) or 1-2; every mode order, "
         "optdims subsets; maxiters 1..3 from the same start (truncated runs = per-iteration trace); stoptol in {0, 1e-4, 0.05, 0.5}; "
         "fixsigns on/off; data whose unfoldings all have exact rank >= the requested rank (Fractions), or all-zero data; non-trivial = data not all-equal; distinct = distinct (op,args). Cases whose exact Gram-Hadamard matrix has "
         "|det|/prod(diag) < 1e-3 in the first exact sweep are skipped (ill-conditioned: float drift, not a defect). Tolerance 1e-6 relative.")
@@ -75,17 +80,81 @@ def _data_spec(rng, kind, shape):
     raise ValueError(kind)
 
 
+def _sort_perm(keys):
+    """np.argsort(w)[::-1] for distinct keys: positions of the keys in descending order"""
+    return sorted(range(len(keys)), key=lambda r: keys[r], reverse=True)
+
+
+def _planted(rng, shape, R, target, kind, mode_order=None):
+    """exactly rank-R integer Kruskal structure (+ small integer noise) whose ALS iterate, started at the planted factors, has its
+    weights in the order `target` (target[k] = component that must end up at position k after the descending sort).
+    Returns (data spec, init, predicted sort permutation after one exact sweep) or None."""
+    N = len(shape)
+    for _ in range(60):
+        fs = _rand_factors(rng, shape, R, -1, 2)
+        nu2 = [math.prod(sum(row[r] ** 2 for row in A) for A in fs) for r in range(R)]
+        if min(nu2) == 0:
+            continue
+        # strengths: smallest integers in 1..6 with s_r^2 * nu2_r ordered as target, consecutive ratio >= 2.25
+        best = None
+        for sv in itertools.product(range(1, 7), repeat=R):
+            lam2 = [sv[r] ** 2 * nu2[r] for r in range(R)]
+            if all(4 * lam2[target[k]] >= 9 * lam2[target[k + 1]] for k in range(R - 1)):
+                if best is None or sum(sv) < sum(best):
+                    best = sv
+        if best is None:
+            continue
+        kt = {"kind": "ktensor", "shape": shape, "weights": list(best), "factors": fs}
+        base = U9.dense_of(kt)
+        n = len(base)
+        noise = [0] * n
+        for pos in rng.sample(range(n), 3):
+            noise[pos] = rng.choice([-1, 1])
+        if kind == "dense":
+            spec = {"kind": "dense", "shape": shape, "data": [b + e for b, e in zip(base, noise)]}
+        elif kind == "sparse":
+            subs, vals = tgen.dense_to_sparse(shape, [b + e for b, e in zip(base, noise)], rng, rng.choice(["sorted", "reversed", "random"]))
+            spec = {"kind": "sparse", "shape": shape, "subs": subs, "vals": vals}
+        elif kind == "ttensor":
+            cs = [R] * N
+            core = [best[j[0]] if len(set(j)) == 1 else 0 for j in U9.all_subs(cs)]
+            spec = {"kind": "ttensor", "shape": shape, "core_shape": cs, "core": core, "factors": fs}
+        else:
+            subs, vals = tgen.dense_to_sparse(shape, noise, rng, "random")
+            spec = {"kind": "sum", "shape": shape, "parts": [kt, {"kind": "sparse", "shape": shape, "subs": subs, "vals": vals}]}
+        X = U9.dense_of(spec)
+        if min(U9.unfolding_ranks(shape, X)) < R:
+            continue
+        init = {"w": [1] * R, "f": [[row[:] for row in A] for A in fs]}
+        dims = list(mode_order) if mode_order is not None else list(range(N))
+        Ue, worst, ok = U9.exact_sweep(shape, X, [[[F(x) for x in row] for row in A] for A in fs], dims, R)
+        if not ok or worst < F(1, 20):
+            continue
+        lam2 = [math.prod(sum(row[r] ** 2 for row in A) for A in Ue) for r in range(R)]
+        srt = sorted(lam2, reverse=True)
+        if any(4 * srt[k] < 5 * srt[k + 1] for k in range(R - 1)):
+            continue                     # too close to a tie: the order could flip in floating point / in the second sweep
+        p = _sort_perm(lam2)
+        if p != list(target):
+            continue
+        return spec, init, p
+    return None
+
+
 def gen_cases(rng, tier):
     big = tier == "thorough"
     cases = []
 
-    def add(spec, R, init, dimorder, optdims, maxit, stoptol, fixsigns):
+    def add(spec, R, init, dimorder, optdims, maxit, stoptol, fixsigns, printitn=0, extra=None):
         X = U9.dense_of(spec)
         nt = len(set(X)) > 1
         if any(X) and min(U9.unfolding_ranks(spec["shape"], X)) < R:
             return          # outside the property's quantifier: an unfolding has rank below the requested rank
-        cases.append(Case("cp_als", {"data": spec, "rank": R, "init": init, "dimorder": dimorder, "optdims": optdims,
-                                     "maxiters": maxit, "stoptol": stoptol, "fixsigns": fixsigns}, nt))
+        args = {"data": spec, "rank": R, "init": init, "dimorder": dimorder, "optdims": optdims,
+                "maxiters": maxit, "stoptol": stoptol, "fixsigns": fixsigns, "printitn": printitn}
+        if extra:
+            args.update(extra)
+        cases.append(Case("cp_als", args, nt))
 
     kinds = ["dense", "sparse", "ttensor", "sum"]
     # all mode orders on one 3-way shape per data kind
@@ -106,18 +175,55 @@ def gen_cases(rng, tier):
         spec = _data_spec(rng, kind, shape)
         R = rng.choice([1, 2])
         r = rng.random()
-        if r < 0.6:
+        if r < 0.55:
             init = {"w": [1] * R, "f": _rand_factors(rng, shape, R)}
-        elif r < 0.75:
+        elif r < 0.7:
             init = {"w": [rng.choice([2, 3, -1]) for _ in range(R)], "f": _rand_factors(rng, shape, R)}   # weights of the start
-        else:
+        elif r < 0.88 or kind == "sum":
             init = {"seed": rng.randrange(1000)}
+        else:
+            init = {"nvecs": True}                                   # leading mode-n vectors of the data (not for sum tensors)
         dimorder = None if rng.random() < 0.3 else rng.sample(range(N), N)
         optdims = None
         if rng.random() < 0.3 and N >= 2:
             k = rng.randint(1, N - 1)
             optdims = sorted(rng.sample(range(N), k))
-        add(spec, R, init, dimorder, optdims, [1, 2, 3], rng.choice([0.0, 1e-4, 0.05, 0.5]), rng.random() < 0.6)
+        add(spec, R, init, dimorder, optdims, [1, 2, 3], rng.choice([0.0, 1e-4, 0.05, 0.5]), rng.random() < 0.6,
+            printitn=rng.choice([0, 0, 0, 1, 2]))
+    # init="nvecs" on every admissible data kind (quick tier: one each)
+    for kind in ["dense", "sparse", "ttensor"]:
+        for _ in range(6 if big else 1):
+            shape = rng.choice(SHAPES3)
+            add(_data_spec(rng, kind, shape), rng.choice([1, 2]), {"nvecs": True}, None if rng.random() < 0.5 else rng.sample(range(3), 3),
+                None, [1, 2], 1e-4, rng.random() < 0.5)
+    # optdims a proper subset with a start whose columns are not unit (the fixed mode's guess must come back untouched)
+    for _ in range(8 if big else 2):
+        shape = rng.choice(SHAPES3)
+        R = rng.choice([1, 2])
+        od = sorted(rng.sample(range(3), rng.choice([1, 2])))
+        add(_data_spec(rng, rng.choice(kinds), shape), R, {"w": [1] * R, "f": _rand_factors(rng, shape, R, -3, 3)}, None, od, [1, 2], 1e-4,
+            rng.random() < 0.7)
+    # planted rank-3 problems: the final arrange must apply EVERY permutation of 3 components (two of them are 3-cycles)
+    r3kinds = ["dense", "sparse", "ttensor", "sum"]
+    j = 0
+    for target in itertools.permutations(range(3)):
+        for rep_ in range(4 if big else 1):
+            kind = r3kinds[j % 4]
+            j += 1
+            shape = rng.choice([[3, 3, 3], [4, 3, 3], [3, 4, 3]] if big else [[3, 3, 3]])
+            dimorder = None if rng.random() < 0.6 else rng.sample(range(3), 3)
+            got = _planted(rng, shape, 3, list(target), kind, dimorder)
+            if got is None:
+                continue
+            spec, init, p = got
+            add(spec, 3, init, dimorder, None, [1, 2], 0.0, rng.random() < 0.5, printitn=(1 if rep_ == 3 else 0),
+                extra={"sortperm": p})
+    # ... and rank 4 with non-involutive permutations (a 4-cycle, a 3-cycle + fixed point)
+    for target in ([[1, 2, 3, 0], [2, 0, 1, 3], [3, 0, 2, 1], [0, 3, 1, 2]] if big else [[1, 2, 3, 0]]):
+        got = _planted(rng, [4, 4, 4], 4, target, "dense")
+        if got is not None:
+            spec, init, p = got
+            add(spec, 4, init, None, None, [1], 0.0, True, extra={"sortperm": p})
     # special: zero data; exactly low-rank data (fit 1, early stop); maxiters = 0 (A-30)
     shape = [3, 2, 2]
     add({"kind": "dense", "shape": shape, "data": [0] * 12}, 1, {"w": [1], "f": _rand_factors(rng, shape, 1)}, None, None, [1, 2], 1e-4, True)
@@ -127,8 +233,11 @@ def gen_cases(rng, tier):
     for kind in (["dense", "sparse"] if not big else kinds):
         shape = rng.choice(SHAPES3)
         spec = _data_spec(rng, kind, shape)
-        cases.append(Case("cp_als_maxiters0", {"data": spec, "rank": 1, "init": {"w": [1], "f": _rand_factors(rng, shape, 1)},
-                                               "dimorder": None, "optdims": None, "maxiters": [0], "stoptol": 1e-4, "fixsigns": True}, True))
+        Rz = rng.choice([1, 2])
+        cases.append(Case("cp_als_maxiters0", {"data": spec, "rank": Rz, "init": {"w": [rng.choice([1, 2, 3]) for _ in range(Rz)],
+                                                                                   "f": _rand_factors(rng, shape, Rz)},
+                                               "dimorder": None, "optdims": None, "maxiters": [0], "stoptol": 1e-4, "fixsigns": True,
+                                               "printitn": rng.choice([0, 1])}, True))
     return cases
 
 
@@ -159,6 +268,9 @@ class _Recorder:
         self.calls.append((int(n), [self._np.array(u, copy=True) for u in U]))
         return self._inner.mttkrp(U, n)
 
+    def nvecs(self, n, r):
+        return self._inner.nvecs(n, r)
+
 
 def _mk_init(ttb, np, a):
     i = a["init"]
@@ -168,7 +280,7 @@ def _mk_init(ttb, np, a):
 def _one_run(ttb, np, a, m, record=False):
     X = U9.mk_data(ttb, np, a["data"])
     before = U9.obs_data(np, ttb, X)
-    kw = dict(stoptol=a["stoptol"], maxiters=m, printitn=0, fixsigns=a["fixsigns"])
+    kw = dict(stoptol=a["stoptol"], maxiters=m, printitn=int(a.get("printitn", 0)), fixsigns=a["fixsigns"])
     if a["dimorder"] is not None:
         kw["dimorder"] = list(a["dimorder"])
     if a["optdims"] is not None:
@@ -177,6 +289,8 @@ def _one_run(ttb, np, a, m, record=False):
     if "seed" in a["init"]:
         np.random.seed(a["init"]["seed"])
         kw["init"] = "random"
+    elif "nvecs" in a["init"]:
+        kw["init"] = "nvecs"
     else:
         given = _mk_init(ttb, np, a)
         kw["init"] = given
@@ -191,9 +305,10 @@ def _one_run(ttb, np, a, m, record=False):
         o["given_after"] = tgen.obs_ktensor(np, given)
         o["init_is_given"] = Minit is given
     else:
-        # what the documented procedure draws under this seed
-        np.random.seed(a["init"]["seed"])
-        o["expected_init"] = [tgen.obs_matrix(np, np.random.uniform(0, 1, (d, a["rank"]))) for d in a["data"]["shape"]]
+        if "seed" in a["init"]:
+            # what the documented procedure draws under this seed
+            np.random.seed(a["init"]["seed"])
+            o["expected_init"] = [tgen.obs_matrix(np, np.random.uniform(0, 1, (d, a["rank"]))) for d in a["data"]["shape"]]
         # the returned guess, supplied again as an explicit start, must reproduce the run
         X2 = U9.mk_data(ttb, np, a["data"])
         kw2 = dict(kw)
@@ -261,7 +376,7 @@ def _reference(a):
     """exact first sweep (pure Python): (conditioning ratio, ok)"""
     shape = a["data"]["shape"]
     X = U9.dense_of(a["data"])
-    if "seed" in a["init"]:
+    if "f" not in a["init"]:
         return None
     U0 = [[[F(x) for x in row] for row in f] for f in a["init"]["f"]]
     return U9.exact_sweep(shape, X, U0, _dims(a), a["rank"])
@@ -270,7 +385,8 @@ def _reference(a):
 def coq_check(c, o):
     a = c.args
     if c.op == "cp_als_maxiters0":
-        # maxiters = 0 is an admissible limit: the call must return (model of the start, start, report) — A-30 while it raises
+        # maxiters = 0 is an admissible limit (theorem C09_maxiters0): no sweep; the returned model is the arranged start WITH its
+        # weights, iters = 0, the report is the fit of that model, the start comes back untouched
         if "exc" in o:
             return "false"
         r = o["runs"][0]
@@ -279,9 +395,12 @@ def coq_check(c, o):
         K = U9.gqk(r["model"]["weights"], r["model"]["factors"])
         K0 = U9.gqk(a["init"]["w"], a["init"]["f"])
         fitfn = "fit_ok_sum" if a["data"]["kind"] == "sum" else "fit_ok"
+        same = (r["iters"] == 0 and r["data_same"] and r["shape"] == a["data"]["shape"]
+                and r["init"]["factors"] == a["init"]["f"] and r["init"]["weights"] == a["init"]["w"]
+                and r["given_after"]["factors"] == a["init"]["f"] and r["given_after"]["weights"] == a["init"]["w"])
         return (f"let s := {gnlist(a['data']['shape'])} in let X := memo s {U9.gxden(a['data'])} in let K := {K} in "
                 f"k_shape_ok s {a['rank']} K && {fitfn} {TOL} s X K {gq(r['normres'])} {gq(r['fit'])} && normal_form_ok {TOL} K && "
-                f"den_close {TOL} s (qden_k K) (qden_k {K0}) && {gbool(r['iters'] in (0, -1) and r['data_same'])}")
+                f"den_close {TOL} s (qden_k K) (qden_k {K0}) && {gbool(same)}")
     if "exc" in o:
         return "false"
     shape = a["data"]["shape"]
@@ -310,6 +429,11 @@ def coq_check(c, o):
             exp = r["expected_init"]
             parts.append(gbool(r["init"]["factors"] == exp and all(w == 1 for w in r["init"]["weights"])))
             parts.append(gbool(r["rerun"] == r["model"] and r["rerun_fit"] == r["fit"]))
+        elif "nvecs" in a["init"]:
+            # the returned guess has unit weights and the right shape and, supplied again as an explicit start, reproduces the run
+            parts.append(gbool(all(w == 1 for w in r["init"]["weights"]) and [len(f) for f in r["init"]["factors"]] == shape
+                               and all(len(row) == R for f in r["init"]["factors"] for row in f)))
+            parts.append(gbool(r["rerun"] == r["model"] and r["rerun_fit"] == r["fit"]))
         else:
             parts.append(gbool(r["init"]["factors"] == a["init"]["f"] and r["init"]["weights"] == a["init"]["w"]
                                and r["given_after"]["factors"] == a["init"]["f"] and r["given_after"]["weights"] == a["init"]["w"]))
@@ -321,7 +445,9 @@ def coq_check(c, o):
     ms = "[" + "; ".join(str(r["m"]) for r in o["runs"]) + "]%nat"
     parts.append(f"iters_ok {gq(F(a['stoptol']))} {fl} {ms} {its}")
     # exact model: first sweep from the given start
-    if ref is not None and o["runs"][0]["m"] == 1:
+    if ref is not None and o["runs"][0]["m"] == 1 and (R <= 2 or (R == 3 and a["data"]["kind"] in ("dense", "sparse"))):
+        # (for rank >= 3 on Tucker / sum data and rank 4 the exact Gauss-Jordan sweep in Qc costs 10-90 s and is redundant with the
+        # certificate chain below, which checks every recorded update against the exact normal equations)
         r1 = o["runs"][0]
         U0 = "[" + "; ".join(U9.gqmx(f) for f in a["init"]["f"]) + "]"
         K = U9.gqk(r1["model"]["weights"], r1["model"]["factors"])
@@ -341,6 +467,8 @@ def coq_check(c, o):
         # the order of the recorded modes is the reduced dimorder, repeated
         want = [dims[k % len(dims)] for k in range(len(rec))]
         parts.append(gbool([x["n"] for x in rec] == want and len(rec) == len(dims) * (last["iters"] + 1)))
+        # the returned initial guess is the one actually used: the factors of the first mttkrp call are the returned guess's factors
+        parts.append(gbool(len(rec) > 0 and rec[0]["U"] == last["init"]["factors"]))
     return pre + " && ".join(parts)
 
 
@@ -350,8 +478,6 @@ def oracle(c, o):
     a = c.args
     if "exc" in o:
         return f"admissible request raised {o['exc']}: {o.get('msg')}"
-    if c.op == "cp_als_maxiters0":
-        return None
     shape = a["data"]["shape"]
     X = [F(x) for x in U9.dense_of(a["data"])]
     R = a["rank"]
@@ -403,10 +529,22 @@ def oracle(c, o):
                 cs = sum(row[rr] ** 2 for row in A)
                 if cs != 0 and abs(cs - 1) > tol:
                     return f"factor column not unit: squared norm {float(cs)}"
-        if r["iters"] > r["m"] - 1:
+        if r["iters"] > max(r["m"] - 1, 0):
             return "iteration count exceeds the limit"
+        if r["m"] == 0:
+            M0 = U9.kfull(shape, [F(x) for x in a["init"]["w"]], [[[F(x) for x in row] for row in f] for f in a["init"]["f"]])
+            if any(abs(x - y) > tol * max(1, max(abs(v) for v in M0)) for x, y in zip(M, M0)):
+                return "maxiters=0: the returned model is not the model of the initial guess"
+            continue                      # no update ran: no normal equations to check
         if not r["data_same"]:
             return "data object was modified"
+        if "f" in a["init"]:
+            if r["given_after"]["factors"] != a["init"]["f"] or r["given_after"]["weights"] != a["init"]["w"]:
+                return "the caller's initial guess was modified by the call"
+            if r["init"]["factors"] != a["init"]["f"] or r["init"]["weights"] != a["init"]["w"]:
+                return "the returned initial guess is not the guess that was supplied / used"
+        elif "rerun" in r and (r["rerun"] != r["model"] or r["rerun_fit"] != r["fit"]):
+            return "the returned initial guess, supplied again as an explicit start, does not reproduce the run"
         # normal equations of the mode updated last
         n = dims[-1]
         P = U9.mttkrp(shape, X, Us, n, R)
@@ -421,31 +559,37 @@ def oracle(c, o):
 
 
 # ------------------------------------------------------------------------------------------ known findings
-def _trig_maxiters0(c):
-    return c.op == "cp_als_maxiters0"
+def _trig_sparse_nvecs(c):
+    """sparse data, init='nvecs', and some mode takes sptensor.nvecs' iterative branch (r < I_n - 1): scipy eigs returns complex128"""
+    a = c.args
+    return (c.op == "cp_als" and a["data"]["kind"] == "sparse" and "nvecs" in a["init"]
+            and any(a["rank"] < d - 1 for d in a["data"]["shape"]))
 
 
-TRIGGERS = {"maxiters_zero": _trig_maxiters0}
+TRIGGERS = {"sparse_nvecs_iterative": _trig_sparse_nvecs}
 
 
-def _wit_a30():
+def _wit_nvecs_sparse():
     import numpy as np
     import pyttb as ttb
-    X = ttb.tensor(np.arange(1.0, 13.0).reshape((3, 2, 2), order="F"), (3, 2, 2), copy=True)
-    init = ttb.ktensor([np.ones((3, 1)), np.ones((2, 1)), np.ones((2, 1))], np.ones(1), copy=True)
+    subs = np.array([[2, 0, 0], [0, 1, 0], [1, 1, 0], [2, 2, 0], [0, 1, 1]])
+    vals = np.array([[2.0], [-1.0], [1.0], [4.0], [-3.0]])
+    X = ttb.sptensor(subs, vals, (3, 3, 2), copy=True)
     try:
         with contextlib.redirect_stdout(io.StringIO()):
-            ttb.cp_als(X, 1, maxiters=0, init=init, printitn=0)
-    except UnboundLocalError as ex:
-        return f"cp_als(X, 1, maxiters=0) raises UnboundLocalError: {ex}"
+            ttb.cp_als(X, 1, init="nvecs", maxiters=2, printitn=0)
+    except AssertionError as ex:
+        return f"cp_als(sptensor 3x3x2, 1, init='nvecs') raises AssertionError: {ex}"
     except Exception as ex:
-        return None if isinstance(ex, (AssertionError, ValueError)) else f"raises {type(ex).__name__}"
+        return f"raises {type(ex).__name__}: {ex}"
     return None
 
 
-WITNESSES = {"A-30": _wit_a30}
-CORRESPONDENCE_ONLY = ["ktensor.arrange/normalize/fixsigns inside cp_als (normal form checked on outputs)",
-                       "init='random' draw order", "tensor/sptensor/ttensor/sumtensor.mttkrp, innerprod, norm (through the certificates)"]
+WITNESSES = {"C09-NVECS-SPARSE": _wit_nvecs_sparse}
+CORRESPONDENCE_ONLY = ["ktensor.fixsigns inside cp_als (denotation: C08; unit columns after sign fixing checked on outputs)",
+                       "numpy's norm / argsort meeting the oracle contracts of C09_normal_form (normal form checked on every sampled output)",
+                       "init='random' draw order", "init='nvecs' (returned guess = guess used; the vectors themselves are C14's)",
+                       "tensor/sptensor/ttensor/sumtensor.mttkrp, innerprod, norm (through the certificates)"]
 ASSUMPTIONS = ["IEEE-754 rounding, LAPACK solve, sqrt and numpy.random are oracles: theorems are exact-arithmetic; real runs are sampled",
                "tolerance 1e-6 relative for the exact recomputation of sampled runs; ill-conditioned cases skipped (exact rule in RULE)"]
 EXPLANATION = ("PARTIAL: the for-all-inputs part is carried by exact-arithmetic theorems about the CP-ALS model; pyttb's real runs are "
